@@ -327,6 +327,28 @@ def _artificial_rule_facts(chk: Check, C: Classes):
         chk.require(ok, R, "ParserGenerator.artificial_rule_from_repeat", f"{rel}:{fn.lineno}",
                     f"loop helper rules must be named `_loop…` (Rule.is_loop keys the `while`/`children` form on that prefix) and the two "
                     f"repetition kinds must get different prefixes; found {pre}")
+    # group helpers get a fixed prefix of their own: Rule.is_loop / is_gather go by the *name*, so a helper whose name is made of
+    # data (the enclosing rule's name, say) and happens to start with `_loop` / `_gather` is emitted as a loop / gather body
+    for gcls in ("XonshParserGenerator", "ParserGenerator"):
+        rr = C.resolve(gcls, "artifical_rule_from_rhs")
+        if rr is None:
+            continue
+        rel_, _, fn_ = rr
+        chk.count(R)
+        T_ = Templates(C, gcls)
+        names = T_.assigns(fn_, "name")
+        heads = []
+        for v in names:
+            if isinstance(v, ast.Call) and isinstance(v.func, ast.Attribute) and isinstance(v.func.value, ast.Name) and v.func.value.id == "self":
+                # a naming helper: its argument is the prefix (`self.new_rule_name("_tmp_")`)
+                heads.append(norm_stmt(v.args[0]).strip("'\"") if v.args and isinstance(v.args[0], ast.Constant) else "\x00")
+            else:
+                fr = T_.frag(v, fn_)
+                heads.append(fr.parts[0][1] if fr.parts and fr.parts[0][0] == "lit" else "\x00")
+        ok_ = bool(heads) and all(h.startswith("_tmp_") for h in heads)
+        chk.require(ok_, R, f"{gcls}.artifical_rule_from_rhs:name-prefix", f"{rel_}:{fn_.lineno}",
+                    f"helper rules for groups must be named with the fixed prefix `_tmp_` (found name templates starting with {heads}): "
+                    f"a name built from data can start with `_loop` / `_gather`, which Rule.is_loop / is_gather take for a repetition helper")
     r = C.resolve("Rule", "is_loop")
     g = C.resolve("Rule", "is_gather")
     chk.count(R)
